@@ -168,6 +168,7 @@ func elemOfParam(fn *ssa.Function, v ssa.Value) (int, int64, bool) {
 }
 
 func c15(p *core.Program, r *core.Report) {
+	sqrtRadicandRule(p, r, "sqrt-radicand-nonnegative", "xy", "xy/internal", "xyz")
 	const r1 = "zero-length-guards"
 	r.Rule(r1, "the 2D and 3D siblings test the same pairs of parameters for coordinate equality before the main computation: point-segment (lineStart,lineEnd); segment-segment {(line1Start,line1End),(line2Start,line2End)} - closed under exchanging the two segments - and on each guard's true edge they return the point-to-segment distance of a point of the degenerate segment to the other segment", 6)
 	type fnSpec struct {
